@@ -52,17 +52,29 @@ def getTopicIdSet (t : Predef) (c : Bytes) (name : Bytes) : List UInt16 :=
         | none => true)
     | none => []
 
-/-- `PredefinedTopics.Merge`: entries of `src` override, client by client, entry by entry -/
+/-- inner loop of `Merge`: every live entry of `m` is stored under client `c` -/
+def mergeIds (m : TopicMap) (c : Bytes) (ids : List UInt16) (acc : Predef) : Predef :=
+  ids.foldl (fun acc id =>
+    match m.lookup id with
+    | some n => acc.add c n id
+    | none => acc) acc
+
+/-- `t[clientID]` exists afterwards (possibly empty) -/
+def ensureClient (acc : Predef) (c : Bytes) : Predef :=
+  match acc.lookup c with
+  | some _ => acc
+  | none => (c, []) :: acc
+
+/-- one client of `src` merged in -/
+def mergeClient (src : Predef) (acc : Predef) (c : Bytes) : Predef :=
+  match src.lookup c with
+  | some m => mergeIds m c (liveIds m) (ensureClient acc c)
+  | none => acc
+
+/-- `PredefinedTopics.Merge`: entries of `src` override, client by client, entry by entry
+    (iterating over the live bindings of src) -/
 def merge (t src : Predef) : Predef :=
-  -- iterate over the live bindings of src (oldest first so that newer ones end up in front)
-  let clients := (src.map (·.1)).eraseDups
-  clients.foldl (fun acc c =>
-    match src.lookup c with
-    | some m => (liveIds m).foldl (fun acc id =>
-        match m.lookup id with
-        | some n => acc.add c n id
-        | none => acc) (match acc.lookup c with | some _ => acc | none => (c, []) :: acc)
-    | none => acc) t
+  ((src.map (·.1)).eraseDups).foldl (mergeClient src) t
 
 end Predef
 
@@ -93,7 +105,11 @@ def parseOption (line : Bytes) : Option (Bytes × Bytes × UInt16) :=
   | _ => none
 
 /-- `ParsePredefinedTopicOptions(options...)`: `none` = error -/
-def parseOptions (opts : List Bytes) : Option Predef :=
-  opts.foldlM (fun acc line => (parseOption line).map fun (c, n, id) => acc.add c n id) []
+def optStep (acc : Predef) (line : Bytes) : Option Predef :=
+  match parseOption line with
+  | some (c, n, id) => some (acc.add c n id)
+  | none => none
+
+def parseOptions (opts : List Bytes) : Option Predef := opts.foldlM optStep []
 
 end Bisquitt
